@@ -1,19 +1,96 @@
 (* C02 — Running HAProxy never diverges from the on-disk config after runtime updates;
    anything not expressible or any failed/unexpected command answer => reload.
-   Statements only; every proof is one `exact`. *)
-From Coq Require Import List String ZArith.
-From HI Require Import Model.Dyn Proofs.Dyn_Base Proofs.Dyn_Pair.
+   Statements only; every proof is one `exact`. Model: Model/Dyn.v (pkg/haproxy/dynupdate.go as
+   repaired by fixes/C02-*.patch). `resp : nat -> answer` is the socket: the n-th command written
+   gets `resp n`, an I/O error or any text; nothing is assumed about it. *)
+From Coq Require Import List String ZArith Permutation.
+From HI Require Import Model.Dyn Proofs.Dyn_Base Proofs.Dyn_Pair Proofs.Dyn_Refine Proofs.Dyn_Step.
 Import ListNotations.
 Open Scope string_scope.
 
-(* if any command written for a backend is answered with an I/O error or with a text the code
-   does not accept, checkBackendPair returns false (=> reload), for every old layout, every new
-   endpoint list and every pattern of answers *)
+(* ---- an applied update leaves HAProxy as if it had loaded the files ---- *)
+
+(* One update. For every slot layout `old` left by earlier updates (layout_ok: distinct server
+   names, a slot is disabled iff it is the empty 127.0.0.1:1023), every re-created backend `cur`
+   whose endpoints are as the converters create them (cur_ok: enabled, not 127.0.0.1, weight >= 0;
+   backends with a DNS resolver are written as one server-template line, see
+   C02_resolver_keeps_template) and every pattern of socket answers: if checkBackendPair reports
+   the update as applied, then replaying the commands it wrote on a HAProxy that had loaded the old
+   layout gives, for every slot name, the observation (enabled?, address, port, effective weight,
+   draining, cookie value when cookies are preserved) that loading the new layout gives. *)
+Theorem C02_dyn_refines_reload : forall old cur resp,
+  layout_ok (b_eps old) -> cur_ok (b_eps cur) -> b_resolver cur = "" ->
+  let r := check_backend_pair old cur resp in
+  r_updated r = true ->
+  forall n, obs (b_preserve cur) (apply_cmds (load (b_eps old)) (r_cmds r)) n = obs (b_preserve cur) (load (r_eps r)) n.
+Proof. exact dyn_refines_reload. Qed.
+Print Assumptions C02_dyn_refines_reload.
+
+(* The same from any running state related to the old layout (not only a fresh load), together
+   with the preservation of the layout invariant and of the slot count: this is the induction
+   step over histories. slot_rel: same server names; disabled <-> maintenance; enabled => same
+   address, port, effective weight; same cookie value when preserved. *)
+Theorem C02_dyn_step : forall old cur resp run,
+  layout_ok (b_eps old) -> cur_ok (b_eps cur) -> b_resolver cur = "" ->
+  slot_rel (b_preserve cur) run (b_eps old) ->
+  let r := check_backend_pair old cur resp in
+  r_updated r = true ->
+  slot_rel (b_preserve cur) (apply_cmds run (r_cmds r)) (r_eps r) /\
+  layout_ok (r_eps r) /\ List.length (r_eps r) = List.length (b_eps old).
+Proof. exact dyn_step. Qed.
+Print Assumptions C02_dyn_step.
+
+(* All histories between two reloads (`history`: any number of applied updates of one backend,
+   each checked against the layout the previous one left, reordered or not in between): the
+   running HAProxy is observed, slot by slot, as if it had loaded the last files written. *)
+Theorem C02_dyn_history_refines_reload : forall pre old b' run',
+  layout_ok (b_eps old) ->
+  history pre old (load (b_eps old)) b' run' ->
+  forall n, obs pre run' n = obs pre (load (b_eps b')) n.
+Proof. exact dyn_history_refines_reload. Qed.
+Print Assumptions C02_dyn_history_refines_reload.
+
+Theorem C02_dyn_history_invariant : forall pre old run b' run',
+  history pre old run b' run' ->
+  layout_ok (b_eps old) -> slot_rel pre run (b_eps old) ->
+  slot_rel pre run' (b_eps b') /\ layout_ok (b_eps b') /\ List.length (b_eps b') = List.length (b_eps old).
+Proof. exact dyn_history_rel. Qed.
+Print Assumptions C02_dyn_history_invariant.
+
+(* related states are indistinguishable by the observation *)
+Theorem C02_slot_rel_obs : forall pre run eps, NoDup (map ep_name eps) -> slot_rel pre run eps ->
+  forall n, obs pre run n = obs pre (load eps) n.
+Proof. exact slot_rel_obs. Qed.
+Print Assumptions C02_slot_rel_obs.
+
+(* DNS resolver backends: an applied update sends nothing and keeps the slot count of the
+   server-template line *)
+Theorem C02_resolver_keeps_template : forall old cur resp,
+  b_resolver cur <> "" ->
+  let r := check_backend_pair old cur resp in
+  r_updated r = true -> r_cmds r = [] /\ List.length (r_eps r) = List.length (b_eps old).
+Proof. exact resolver_keeps_template. Qed.
+Print Assumptions C02_resolver_keeps_template.
+
+(* ---- a failed or unexpectedly answered command reloads ---- *)
+
+(* for every old layout, every new endpoint list and every pattern of answers: if any command
+   written for the backend is answered with an I/O error or with a text the code does not accept,
+   checkBackendPair returns false *)
 Theorem C02_dyn_fault_reloads : forall old cur resp i,
   let r := check_backend_pair old cur resp in
   (i < List.length (r_cmds r))%nat -> bad_set_server (resp i) = true -> r_updated r = false.
 Proof. exact dyn_fault_reloads. Qed.
 Print Assumptions C02_dyn_fault_reloads.
+
+(* ... and then HAProxyUpdate reloads, whatever else the update contains *)
+Theorem C02_step_fault_reloads : forall s p i,
+  In p (si_backs s) ->
+  (i < List.length (br_cmds (backend_step (si_committed s) p)))%nat ->
+  bad_set_server (bp_resp p i) = true ->
+  so_reload (step s) = true.
+Proof. exact step_fault_reloads. Qed.
+Print Assumptions C02_step_fault_reloads.
 
 (* checkBackendPair (as repaired) never indexes the empty-slot list out of range *)
 Theorem C02_no_panic : forall old cur resp, cur_enabled (b_eps cur) ->
@@ -21,7 +98,34 @@ Theorem C02_no_panic : forall old cur resp, cur_enabled (b_eps cur) ->
 Proof. exact no_panic. Qed.
 Print Assumptions C02_no_panic.
 
-(* certificates: a successful `set ssl cert` + `commit ssl cert` leaves the file content running *)
+(* ---- what cannot be expressed by runtime commands reloads ---- *)
+
+(* nothing loaded yet / full sync; a change of global, tcp services, frontend or userlists; an
+   added or removed host or backend; a difference in any field of a Backend other than ID,
+   Dynamic, Endpoints (and the two caches PathsMap, pathConfig that Shrink ignores); a difference
+   in any field of a Host other than the certificate's common name, hash and expiry: reload *)
+Theorem C02_non_runtime_change_reloads : forall s, non_runtime_change s -> so_reload (step s) = true.
+Proof. exact non_runtime_change_reloads. Qed.
+Print Assumptions C02_non_runtime_change_reloads.
+
+Theorem C02_backend_change_reloads : forall old cur resp name,
+  differs_at backend_fields (b_cfg old) (b_cfg cur) name -> ~ In name pair_blank ->
+  r_updated (check_backend_pair old cur resp) = false.
+Proof. exact backend_change_reloads. Qed.
+Print Assumptions C02_backend_change_reloads.
+
+Theorem C02_host_change_reloads : forall old cur resp name,
+  differs_at host_fields (h_cfg old) (h_cfg cur) name -> ~ In name host_blank ->
+  fst (check_host_pair old cur resp) = false.
+Proof. exact host_change_reloads. Qed.
+Print Assumptions C02_host_change_reloads.
+
+(* ---- certificates ---- *)
+
+(* HAProxy executing `set ssl cert` + `commit ssl cert` honestly, with the connection possibly
+   breaking before either command and the payload possibly refused: when execUpdateCert reports
+   success the running certificate is the content of the file, provided no transaction was left
+   pending for that file *)
 Theorem C02_cert_update_sound : forall st payload accept lost0 lost1 h,
   c_pending st = None -> h_content h = Some payload ->
   let '(st', resp) := run_cert st payload accept lost0 lost1 in
@@ -29,6 +133,16 @@ Theorem C02_cert_update_sound : forall st payload accept lost0 lost1 h,
 Proof. exact cert_update_sound. Qed.
 Print Assumptions C02_cert_update_sound.
 
+(* the side condition is needed: the answer to `set ssl cert` itself is not validated by the code *)
+Theorem C02_cert_update_sound_needs_no_pending :
+  exists st payload h,
+    h_content h = Some payload /\
+    let '(st', resp) := run_cert st payload false false false in
+    fst (exec_update_cert h resp 0) = true /\ c_running st' <> payload.
+Proof. exact cert_update_sound_needs_no_pending. Qed.
+Print Assumptions C02_cert_update_sound_needs_no_pending.
+
+(* an I/O error on either command, or an answer to `commit ssl cert` without "Success": reload *)
 Theorem C02_cert_fault_reloads : forall h resp ok w,
   exec_update_cert h resp 0 = (ok, w) -> ok = true ->
   resp 0%nat <> AIOErr /\ exists s, resp 1%nat = AText s /\ commit_ok s = true.
